@@ -138,7 +138,7 @@ def check(ctx):
     from ..entries import arg_names
     for m in range(1, 13):
         lab = f'{YMD} [month={m}]'
-        N.run(YMD, label=lab, overrides={'month': lambda I, st, ty, m=m: const_int(m, 'u32')})
+        N.run(YMD, label=lab, overrides={'month@2': lambda I, st, ty, m=m: const_int(m, 'u32')})
         ent = set()
         for st, rv in N.flat(lab):
             if rv[0] == 'e' and set(rv[2]) == {0}:
